@@ -100,7 +100,9 @@ class Session:
             kw["gamma"] = g
         obj = cls(**kw)
         self.next_mid += 1
-        return ModelHandle(self.next_mid, kind, obj, gamma)
+        mh = ModelHandle(self.next_mid, kind, obj, gamma)
+        mh.constructed = self.enc_model(mh)   # projection at construction time
+        return mh
 
     def enc_model(self, mh):
         return encode_model(mh.m, mh.id, mh.kind, self.gamma_names)
@@ -127,6 +129,7 @@ class Session:
             kw["limit_sigma"] = limit_sigma
         ev = {
             "op": "rate",
+            "model0": dict(mh.constructed, id=mh.id),
             "model": self.enc_model(mh),
             "teams": self.enc(teams),
             "ranks": self.enc(kw.get("ranks")),
@@ -146,7 +149,7 @@ class Session:
 
     def predict(self, op, mh, teams, group="", role="", aux=None):
         fn = {"win": "predict_win", "draw": "predict_draw", "rank": "predict_rank"}[op]
-        ev = {"op": op, "model": self.enc_model(mh), "teams": self.enc(teams)}
+        ev = {"op": op, "model0": dict(mh.constructed, id=mh.id), "model": self.enc_model(mh), "teams": self.enc(teams)}
         kind, val, exc = self.outcome_of(lambda: getattr(mh.m, fn)(teams))
         ev["out"] = {"kind": kind, "exc": exc, "value": self.enc(val)}
         ev["after"] = self.enc(teams)
@@ -253,6 +256,17 @@ class Session:
         kind, val, exc = self.outcome_of(lambda: hash(a))
         ev["out"] = {"kind": kind, "exc": exc, "value": self.enc(str(val) if val is not None else None)}
         ev["group"], ev["role"] = group, role
+        self.emit(ev)
+        return val
+
+    def kernel(self, name, x, t=None):
+        """One call of an exported Gaussian correction function."""
+        import openskill.models.weng_lin.common as wl
+
+        fn = getattr(wl, name)
+        ev = {"op": "kernel", "name": name, "x": self.enc(float(x)), "t": self.enc(float(t) if t is not None else 1e-5)}
+        kind, val, exc = self.outcome_of((lambda: fn(x, t)) if t is not None else (lambda: fn(x)))
+        ev["out"] = {"kind": kind, "exc": exc, "value": self.enc(val)}
         self.emit(ev)
         return val
 
